@@ -542,6 +542,52 @@ def rule_p3(repo, res):
                nontrivial=False)
 
 
+IMMUTABLE_BASES = ("str", "int", "float", "tuple", "frozenset", "bytes", "complex")
+
+
+def rule_p4(repo, res):
+    """P4: values the loader stores in containers survive copy.deepcopy and pickle.  A subclass of an immutable
+    builtin that overrides __new__ with its own signature and defines no reduction hook is rebuilt by
+    ``cls.__new__(cls, <value of the builtin base>)`` and gets its attributes from the saved state afterwards: the
+    first parameter then receives the base value (for EmptyValueAtLine: ``""``), not what the caller meant.  So
+    __new__ may only store its parameters (``self.x = p``) or hand them to the base ``__new__``; converting,
+    validating or computing with them raises (or mis-builds) during reconstruction."""
+    n = 0
+    hooks = ("__reduce__", "__reduce_ex__", "__getnewargs__", "__getnewargs_ex__", "__copy__", "__deepcopy__", "__getstate__")
+    for cname, ci in sorted(repo.classes.items()):
+        if "." in cname:
+            continue
+        mro = repo.mro(cname)
+        base = [b[4:] for b in mro if b.startswith("ext:") and b[4:] in IMMUTABLE_BASES]
+        new = ci.methods.get("__new__")
+        if not base or new is None:
+            continue
+        if any(h in repo.classes[c].methods for c in mro if not c.startswith("ext:") for h in hooks):
+            continue
+        n += 1
+        params = [a.arg for a in new.args.args][1:]
+        bad = []
+        for x in ast.walk(new):
+            if not (isinstance(x, ast.Name) and x.id in params and isinstance(x.ctx, ast.Load)):
+                continue
+            p = getattr(x, "_parent", None)
+            # allowed: value of a plain assignment to an attribute / a name; argument of <base>.__new__ / super().__new__
+            if isinstance(p, ast.Assign) and p.value is x:
+                continue
+            if isinstance(p, ast.Call) and x in p.args and isinstance(p.func, ast.Attribute) and p.func.attr == "__new__":
+                continue
+            bad.append((x, p))
+        res.oblige("P4", f"{cname}.__new__ ({base[0]} subclass without a reduction hook) only stores or forwards its parameters", ok=not bad)
+        for x, p in bad:
+            res.add(Finding("P4", f"{cname}.__new__", f"uses parameter {x.id}",
+                            f"{cname} is a {base[0]} subclass whose __new__ takes its own parameters and defines no __reduce__/"
+                            f"__getnewargs__: copy.deepcopy and pickle rebuild it as {cname}.__new__({cname}, <the {base[0]} value>) and "
+                            f"restore the attributes afterwards, so `{norm(p, 50)}` runs on the {base[0]} value instead of {x.id} -- "
+                            "it raises (or builds the wrong object) for every container that holds such a value",
+                            where=f"pvl/{ci.module.name}.py:{x.lineno}"))
+    res.floor("immutable-builtin subclasses with their own __new__", n, 1)
+
+
 def rule_p2(repo, res):
     """P2: the item list is only ever assigned fresh lists and never escapes;
     copy() is type(self)(self)."""
